@@ -19,6 +19,7 @@ import (
 	dsclient "github.com/ErdemOzgen/blackdagger/internal/persistence/client"
 	"github.com/ErdemOzgen/blackdagger/internal/scheduler"
 	"github.com/ErdemOzgen/blackdagger/verifh/core"
+	"github.com/ErdemOzgen/blackdagger/verifh/pgrp"
 )
 
 func c09RealBody(c *core.Ctx) {
@@ -68,6 +69,7 @@ func c09RealTrial(c *core.Ctx, idx int, self, state string, withStop bool, desc 
 		return strings.Count(string(b), `["`+what+`"`)
 	}
 	var agentCmd *exec.Cmd
+	var agentGrp *pgrp.Handle
 	agentDone := make(chan struct{})
 	if state != "never-run" {
 		agentCmd = exec.Command(h.bin, "start", loc)
@@ -78,8 +80,9 @@ func c09RealTrial(c *core.Ctx, idx int, self, state string, withStop bool, desc 
 			c.Inconclusive("c09 real: cannot start the run: " + err.Error())
 			return
 		}
+		agentGrp = pgrp.Open(agentCmd.Process.Pid)
 		go func() { _ = agentCmd.Wait(); close(agentDone) }()
-		defer func() { _ = syscall.Kill(-agentCmd.Process.Pid, syscall.SIGKILL) }()
+		defer agentGrp.KillClose()
 		ok := false
 		for i := 0; i < 1500 && !ok; i++ {
 			for _, e := range readProcMarker(marker) {
@@ -105,7 +108,7 @@ func c09RealTrial(c *core.Ctx, idx int, self, state string, withStop bool, desc 
 			return
 		}
 	case "killed":
-		_ = syscall.Kill(-agentCmd.Process.Pid, syscall.SIGKILL)
+		agentGrp.Kill()
 		<-agentDone
 	case "running-since-yesterday":
 		// the run began before midnight: its history file carries yesterday's date
